@@ -450,6 +450,8 @@ fn segments(img: &BTreeMap<u64, u8>) -> Vec<(u64, Vec<u8>)>
 
 struct RunOut
 {
+	/// the project as written to disk: main file first, then every other file (path relative to the main file's directory)
+	project: Vec<(String, Vec<u8>)>,
 	file: Option<Vec<u8>>,
 	stderr: String,
 	status: String,
@@ -498,7 +500,9 @@ fn run_trias(dir: &Path, c: &Case) -> RunOut
 	if let Some(s) = &c.sentinel {std::fs::write(&out_path, s).unwrap();}
 	let out = Command::new(repo_bin("trias")).arg("main.asm").arg("out.uf2").current_dir(dir).output().expect("cannot run trias (./check builds it when needs_bins is true)");
 	let file = std::fs::read(&out_path).ok();
-	RunOut{file, stderr: String::from_utf8_lossy(&out.stderr).into_owned(), status: format!("{:?}", out.status.code())}
+	let mut project: Vec<(String, Vec<u8>)> = vec![("main.asm".to_owned(), main.clone().into_bytes())];
+	project.extend(files.iter().chain(decoys.iter()).cloned());
+	RunOut{project, file, stderr: String::from_utf8_lossy(&out.stderr).into_owned(), status: format!("{:?}", out.status.code())}
 }
 
 /// the statement of C18 on the observed outcome
@@ -596,6 +600,26 @@ fn check_case(cx: &mut Cx, seed: u64)
 	else {"asm-failed".to_owned()};
 	cx.report.hit(&format!("outcome: {}", if produced {"file written"} else {&imp}));
 	cx.report.case(if produced {Some(&imp)} else {None});
+	// the executable from its arguments to the output file against `Trias.mainOut` (Model/TriasMain.lean): whole project in,
+	// "file written with these bytes" / "refused, nothing created or modified" out — for failing programs as well
+	{
+		let total: usize = run.project.iter().map(|(n, d)| n.len() + d.len()).sum();
+		let odd_name = run.project.iter().any(|(n, _)| n.is_empty() || n.contains(|ch: char| ch == ' ' || ch == '=' || !ch.is_ascii_graphic()));
+		if total > 200_000 || img.len() > 65536 || odd_name {cx.report.hit("trias main model: skipped (project > 200 kB, image > 64 KiB or a file name the protocol cannot carry)");}
+		else
+		{
+			let req = format!("trias main {}", run.project.iter().map(|(n, d)| format!("{n}={}", if d.is_empty() {"-".to_owned()} else {hex(d)})).collect::<Vec<_>>().join(" "));
+			let reply = cx.model.ask(&req);
+			// an existing output file that is left alone and a file that is not created are the same outcome
+			let unchanged = match (&run.file, &c.sentinel) {(None, None) => true, (Some(f), Some(s)) => f == s, _ => false};
+			let imp_main = if produced {imp.clone()} else if !unchanged {"output file removed or created empty".to_owned()} else {imp.clone()};
+			cx.report.hit(&format!("trias main model: {}", reply.split(' ').next().unwrap_or("")));
+			if !cx.report.compare("model.trias.main", &input, &reply, &imp_main) && cx.report.disagreements.len() <= 3
+			{
+				cx.report.notes.push(format!("{input}: stderr {}", run.stderr.lines().take(3).collect::<Vec<_>>().join(" / ")));
+			}
+		}
+	}
 	if c.expect == Expect::Image
 	{
 		let segs = segments(&img);
